@@ -266,6 +266,10 @@ def r3(F, R):
         from .c05 import agg_blocks
         oks = [x[0] for x in agg_blocks(b, "Result", "Ok")]
         ok_dom = oks and all(any(b.dominates(r0, o) for r0 in rw) for o in oks) and all(any(b.dominates(s0, r0) for s0 in sw) for r0 in rw)
+        if oks and rw and sw and not ok_dom:
+            # the same on feasible paths (a shared request helper returns early with Err: its join with the normal path is not dominated by the recv,
+            # but the path through that join to the Ok return is infeasible - `?` of an Err breaks)
+            ok_dom = not (set(oks) & b.reach_feasible(0, avoid=sorted(rw))) and not (set(rw) & b.reach_feasible(0, avoid=sorted(sw)))
         if timed:
             R.bad("C11-R3", key, site, "the response is awaited with a bounded wait (%s): after a timeout the controller is still blocked handing over that response, "
                   "so every later request (and abort) blocks forever - the rendezvous needs the blocking recv()" % ", ".join(timed))
